@@ -265,7 +265,7 @@ def coq_sample_check(pid, sample, render):
              "Import ListNotations.", "Open Scope N_scope."]
     k = 0
     for case, obs in sample:
-        term = render(case.split())
+        term = render([t for t in case.split() if not t.startswith("#")])
         if term is None:
             continue
         exp = "None" if obs.startswith("PANIC") else f"Some {coq_list(obs.split())}"
